@@ -136,7 +136,7 @@ fn base_config(r: &mut Rng, id: &str) -> SimConfig {
             });
         }
     }
-    if matches!(id, "C03" | "C20" | "C02") || r.chance(1, 10) {
+    if matches!(id, "C03" | "C20" | "C02" | "C15" | "C11") || r.chance(1, 10) {
         if r.chance(1, 2) {
             cfg.password = Some("srvpw".into());
         }
